@@ -50,6 +50,8 @@ func runeString(r *gal.Rng, n int, urlSafe bool) string {
 			b.WriteByte(byte('a' + r.Intn(26)))
 		case x < 8 || urlSafe:
 			b.WriteString(cjk[r.Intn(len(cjk))])
+		case x == 8 && r.Bool():
+			b.WriteString(fourByte[r.Intn(len(fourByte))])
 		case x == 8:
 			b.WriteString([]string{"\xff", "\xc0", "\x80", "\xe4"}[r.Intn(4)]) // each decodes to one U+FFFD
 		default:
@@ -382,6 +384,39 @@ func runC01(c *Ctx) error {
 					w.Add("CW ("+term+")", desc, fmt.Sprintf("bytes-at-bound:%s:%d:%d", rl, db, k))
 					w.Count("directed.bytes-at-bound")
 				}
+			}
+		}
+	}
+	// ---- (D) characters of four bytes: n characters are 4n bytes; bounds at n, n+-1, 3n, 4n
+	for _, rl := range sizeRules {
+		for _, nch := range []int{1, 2, 3, 5} {
+			s := strings.Repeat(fourByte[nch%len(fourByte)], nch)
+			if nch == 3 {
+				s = fourByte[0] + "a" + fourByte[1]
+			}
+			for _, bound := range []int{nch - 1, nch, nch + 1, 3 * nch, 4 * nch} {
+				if bound < 0 {
+					continue
+				}
+				marker++
+				mk := fmt.Sprintf("M%d", marker)
+				lo2, hi2 := int64(bound), int64(bound+2)
+				switch rl {
+				case "le", "lt":
+					lo2, hi2 = 0, int64(bound)
+				case "to", "oto":
+				default:
+					hi2 = 0
+				}
+				text := sizeRuleText(rl, lo2, hi2) + "|" + mk
+				call := &walkCall{Entry: "var", VarRules: []string{text}, Src: s}
+				spec := fmt.Sprintf("SSize %s %s %s %s %s", sizeRuleCtor[rl], galZ(lo2), galZ(hi2), galVal(reflect.ValueOf(s), nil), gal.Str(mk))
+				term, desc := call.caseTerm([]string{spec})
+				desc["rule"] = text
+				desc["bytes"] = len(s)
+				desc["chars"] = len([]rune(s))
+				w.Add("CW ("+term+")", desc, fmt.Sprintf("four-byte:%s:%d:%d", rl, nch, bound))
+				w.Count("directed.four-byte-chars")
 			}
 		}
 	}
